@@ -911,7 +911,30 @@ pub fn render_diff_section(f: &FileSpec, rendered: &RenderedFile, ctx: usize, fl
 /// The old text of a `Replaced` edit that stands for "the start tag on this line was re-written":
 /// a run of tildes, which shares no character with any generated tag.
 pub fn is_tag_rewrite(old: &str) -> bool {
-    old.len() >= 3 && old.bytes().all(|b| b == b'~')
+    (old.len() >= 3 && old.bytes().all(|b| b == b'~')) || old.contains(DROPPED_ATTR)
+}
+
+/// The other way a start tag line changes: its last attribute was dropped. The old line is the
+/// new one with this text in front of the tag's closing `>`; the character-level difference is a
+/// pure deletion, which blockwatch attributes to the character that follows it - the `>`, still
+/// part of the tag.
+pub const DROPPED_ATTR: &str = " zz9=q7";
+
+/// Position of the closing `>` of the start tag on a rendered single-line tag line (None when the
+/// line does not end in the tag, optionally followed by a block-comment terminator).
+pub fn closing_angle(line: &str) -> Option<usize> {
+    let body = line.strip_suffix(" -->").or_else(|| line.strip_suffix(" */")).unwrap_or(line);
+    body.ends_with('>').then(|| body.len() - 1)
+}
+
+/// The old text of a tag line whose last attribute was dropped (see `DROPPED_ATTR`).
+pub fn with_dropped_attr(line: &str) -> Option<String> {
+    let p = closing_angle(line)?;
+    // blanks in front of `>` would move the deletion away from it: keep the case crisp
+    if line[..p].ends_with(' ') || line[..p].ends_with('\t') {
+        return None;
+    }
+    Some(format!("{}{DROPPED_ATTR}{}", &line[..p], &line[p..]))
 }
 
 impl FileDiff {
